@@ -152,7 +152,9 @@ static void on_report(int id, const void* obj, const long* v, int n) {
 // worker sleep registry (hooks 61/62 sit around the semaphore wait of a worker thread)
 static std::atomic<long> g_workers_asleep{0}, g_workers_known{0};
 static thread_local bool tl_worker_known = false;
-static void on_point(int id, const void*, long) {
+static std::atomic<int> g_quiet_active{0}; static std::atomic<long> g_quiet_wakeups{0}, g_quiet_resumes{0};
+static void on_point(int id, const void*, long arg) {
+    if (id == 58) { if (arg == 1 && g_quiet_active.load(std::memory_order_relaxed)) g_quiet_wakeups.fetch_add(1, std::memory_order_relaxed); return; }
     if (id == 74) { g_enqueue_events.fetch_add(1, std::memory_order_release); return; }
     if (id == 61) { if (!tl_worker_known) { tl_worker_known = true; g_workers_known.fetch_add(1); } g_workers_asleep.fetch_add(1); }
     else if (id == 62) g_workers_asleep.fetch_sub(1);
@@ -194,20 +196,32 @@ int main(int argc, char** argv) {
         if (kind < 6) {
             // ---- several arenas, external threads entering/leaving through execute / enqueue / nested arenas, isolation
             int na = 1 + (int)r.below(4);
+            // "quiet" flavours (nothing is enqueued and no execute() can meet a full arena, i.e. no arena::enqueue_task at all - hook 74 stays
+            // silent): 1 = limit 1 with at most as many application threads as the smallest arena has slots: no worker may execute anything;
+            // 2 = one application thread and only (1,1) arenas: no worker may enter any of them. Isolated nested loops, whose waits skip the
+            // outer level's tasks and re-advertise them ("wakeup" advertisements), are the work in both.
+            int quiet = (int)r.pick(std::vector<int>{ 0, 0, 0, 0, 0, 0, 0, 1, 1, 2 });
             std::vector<std::unique_ptr<ArenaMon>> am; std::vector<std::unique_ptr<Obs>> obs; std::string shp;
             for (int i = 0; i < na; i++) {
                 int c = (int)r.pick(std::vector<int>{ 1, 2, 2, 3, 4, 6, 8, 16 }); int rs = c == 1 ? (int)r.below(2) : (int)r.below(std::min(c - 1, 2) + 1);   // never (n,n), n>=2: no worker slot, enqueued work would legitimately wait
+                if (quiet == 2) { c = 1; rs = 1; }
+                if (quiet == 1) { c = (int)r.pick(std::vector<int>{ 2, 2, 3, 4, 8 }); rs = (int)r.below(2); }      // room for two or more application threads that steal from each other
                 auto p = r.chance(1, 4) ? tbb::task_arena::priority::high : r.chance(1, 3) ? tbb::task_arena::priority::low : tbb::task_arena::priority::normal;
                 am.emplace_back(new ArenaMon(c, rs, p)); obs.emplace_back(new Obs(am.back()->arena));
                 shp += "(" + std::to_string(c) + "," + std::to_string(rs) + ")";
             }
             int nt = 1 + (int)r.below(8), ops = 3 + (int)r.below(10);
-            size_t limv = 1 + r.below(8); if (r.chance(1, 3)) limv = 1;
-            std::unique_ptr<tbb::global_control> lim; if (r.chance(1, 4)) lim.reset(new tbb::global_control(tbb::global_control::max_allowed_parallelism, limv));
+            size_t limv = 1 + r.below(8); if (r.chance(1, 3) || quiet == 1) limv = 1;
+            std::unique_ptr<tbb::global_control> lim; if (r.chance(1, 4) || quiet == 1) lim.reset(new tbb::global_control(tbb::global_control::max_allowed_parallelism, limv));
             // under a limit of 1, half of the scenarios enqueue nothing: then no worker may take part at all
-            bool no_enqueue = lim && limv == 1 && r.chance(1, 2);
-            if (no_enqueue) { sleep_us(300); g_enq_at_scenario_start.store(g_enqueue_events.load()); g_no_worker_expected.store(1); R.stat("scenarios_under_limit_1_without_enqueue"); }
-            struct NoW { bool on; ~NoW() { if (on) g_no_worker_expected.store(0); } } now_guard{ no_enqueue };
+            bool no_enqueue = quiet || (lim && limv == 1 && r.chance(1, 2));
+            if (quiet == 2) nt = 1;
+            else if (no_enqueue) { if (quiet && nt < 2) nt = 2; for (auto& m : am) nt = std::min(nt, m->conc); }
+            if (quiet) ops += 6;
+            if (quiet) R.stat(quiet == 1 ? "quiet_scenarios_limit_1" : "quiet_scenarios_one_thread_arenas");
+            const long ev0 = g_enqueue_events.load(); const long wk0 = g_quiet_wakeups.load(); if (quiet) g_quiet_active.store(1);
+            if (no_enqueue && lim && limv == 1) { sleep_us(300); g_enq_at_scenario_start.store(g_enqueue_events.load()); g_no_worker_expected.store(1); R.stat("scenarios_under_limit_1_without_enqueue"); }
+            struct NoW { bool on; ~NoW() { if (on) g_no_worker_expected.store(0); } } now_guard{ no_enqueue && lim && limv == 1 };
             std::vector<std::thread> th; uint64_t s0 = r.next(); std::atomic<long> enq_left{0};
             for (int t = 0; t < nt; t++) th.emplace_back([&, t] {
                 tl_external = true; Rng tr(mix(s0, t));
@@ -218,10 +232,13 @@ int main(int argc, char** argv) {
                     uint64_t sd = tr.next();
                     if (what < 5) {
                         m->arena.execute([&, m, sd] {
+                            // one application thread and (1,1) arenas: suspend and resume at once (the resume re-advertises the arena's work: a "wakeup"
+                            // advertisement with nothing enqueued). Only there: nobody else can pick the stack up, and no monitor state is live across it.
+                            if (quiet == 2 && (sd & 1)) { tbb::task::suspend([](tbb::task::suspend_point sp) { tbb::task::resume(sp); }); g_quiet_resumes.fetch_add(1, std::memory_order_relaxed); }
                             InBody ib(m, 0); Rng br(sd);
-                            int n = 1 + (int)br.below(40);
+                            int n = 1 + (int)br.below(40); if (quiet) n += 24;
                             tbb::parallel_for(0, n, [&, m, sd](int j) { InBody b2(m, 0); Rng b(mix(sd, j)); spin_some(b);
-                                if (b.chance(1, 12)) {
+                                if (b.chance(1, quiet ? 3 : 12)) {
                                     // isolated nested loop: the waiting thread may only pick up tasks of this scope
                                     long scope = g_scope_ids.fetch_add(1);
                                     tbb::this_task_arena::isolate([&, m, scope] { long prev = tl_exec_scope; tl_exec_scope = scope;
@@ -251,6 +268,8 @@ int main(int argc, char** argv) {
             while (enq_left.load() > 0) sched_yield();
             g_phase.store("between scenarios");
             R.scenarios++;
+            if (quiet) { g_quiet_active.store(0); R.stat("wakeup_advertisements_in_quiet_scenarios", g_quiet_wakeups.load() - wk0); R.stat("suspend_resume_in_quiet_scenarios", g_quiet_resumes.exchange(0)); }
+            if (quiet && g_enqueue_events.load() == ev0) { R.stat("quiet_scenarios_in_which_no_enqueue_task_happened"); long qb = 0; for (auto& m : am) qb += m->bodies.load(); R.stat("bodies_judged_by_the_no_worker_oracles", qb); }
             long bodies = 0; uint64_t h = std::hash<std::string>{}(shp); bool par = false;
             for (auto& m : am) { bodies += m->bodies.load(); h = mix(h, (uint64_t)m->max_inflight.load() * 64 + (uint64_t)(m->max_index.load() + 1)); if (m->max_inflight.load() >= 2) par = true; R.stat_max("max_inflight_vs_bound_pct", m->max_inflight.load() * 100 / m->conc); R.stat("reserved_slot_entries_by_external_threads", m->reserved_entries.load()); }
             R.stat("bodies", bodies);
